@@ -286,11 +286,13 @@ fn oracle(c: &Case, recs: &[Rec]) -> (Option<(String, String)>, Vec<String>, boo
                 c.handlers[(calls.len() - 1).min(c.handlers.len() - 1)]
             };
             let t_resp = tc + delay + if let c06_rt::BodyKind::Stream(g) = body { g } else { 0 };
-            let p_count = s.toks.iter().filter(|x| x.1 == 'P').count();
+            let p_count = s.toks.iter().filter(|x| x.1 == 'P' && x.0 <= t_resp).count();
             let d_before = s.toks.iter().filter(|x| x.1 == 'd' && x.0 <= t_resp).count();
+            // body bytes arriving in the very poll that produces the response are read first
+            let tie = s.toks.iter().any(|x| x.1 == 'd' && x.0 == t_resp);
             let writes_ok_for_stream = !matches!(body, c06_rt::BodyKind::Stream(_)) || !s.blocks;
             let bound = t_resp + 2 * c.d_disc + SKEW;
-            if d_before < p_count && writes_ok_for_stream && bound < c.horizon && sig_t.is_none() {
+            if d_before < p_count && !tie && writes_ok_for_stream && bound < c.horizon && sig_t.is_none() {
                 tags.push("linger-timed".into());
                 match &done {
                     Some((td, _)) if *td <= bound => {}
@@ -309,7 +311,21 @@ fn oracle(c: &Case, recs: &[Rec]) -> (Option<(String, String)>, Vec<String>, boo
             set("graceful-started-after-signal", format!("signal at {sg}, handler called at {t}"));
         }
         let undisturbed = s.eof.is_none() && !s.blocks && !hs.iter().any(|h| h.1);
-        if undisturbed && !calls.is_empty() && first_close.map_or(true, |t| t >= sg) {
+        // a response that announced `connection: close` ended before the signal: the connection
+        // was already closing (lingering / shutting down) for reasons that are not the signal's
+        let closing_before = {
+            let mut cl = false;
+            let mut res = false;
+            for r in recs {
+                match r {
+                    Rec::Head(_, _, c2) => cl = *c2,
+                    Rec::End(t) if cl && *t < sg => res = true,
+                    _ => {}
+                }
+            }
+            res
+        };
+        if undisturbed && !closing_before && !calls.is_empty() && first_close.map_or(true, |t| t >= sg) {
             // every started request is answered completely
             let heads: Vec<(u64, u16, bool)> =
                 recs.iter().filter_map(|r| if let Rec::Head(t, st, cl) = r { Some((*t, *st, *cl)) } else { None }).collect();
@@ -337,18 +353,6 @@ fn oracle(c: &Case, recs: &[Rec]) -> (Option<(String, String)>, Vec<String>, boo
                 (Some(_), Some(e)) => Some(e.max(sg)),
                 (Some(_), None) => None,
                 (None, _) => Some(sg),
-            };
-            let closing_before = {
-                let mut cl = false;
-                let mut res = false;
-                for r in recs {
-                    match r {
-                        Rec::Head(_, _, c2) => cl = *c2,
-                        Rec::End(t) if cl && *t < sg => res = true,
-                        _ => {}
-                    }
-                }
-                res
             };
             if let Some(t0) = idle_from {
                 // a request body still unread when its response ended: the code lingers (≤ D) first
